@@ -121,6 +121,14 @@ func vfH_C01_step() {
 		W = vfChoice("W", 3)
 	}
 	st := vfBuildState(env, key, H, W, 0, 1)
+	if H == 3 && W == 0 && vfChoice("tombstone", 2) == 1 {
+		// the youngest holder is released while older ones stay: its Lock object remains in the holder
+		// queue as a released entry; the step may then name its LockId again
+		u := env.newCmd(protocol.COMMAND_UNLOCK, key, vfLockId(3))
+		env.unlock(0, u)
+		vfAssume(len(vfHolders(st.m)) == 2)
+		vfReach("tombstone")
+	}
 	before := vfSnapHolders(st.m)
 	op := vfChoice("op", 2)
 	lid := vfStepLockId("lid", H, W)
